@@ -440,5 +440,6 @@ def _flags(ctx, lib, fn, item):
     b = fn["use_base"]
     S = Sites(lib, b)
     marks = [s for s in S.calls if s["c"].adt == LI]
-    ctx.check(len(marks) == 1 and marks[0]["name"] == "use_base" and m(item(ANY), marks[0]["args"][0]), "H-ITEM", b, "flag-set:use_base", b.span,
-              "BuildHelper::use_base(b) must mark slot b as a used base")
+    unc = len(marks) == 1 and all(b.dominates(marks[0]["bb"], r_) for r_ in b.return_blocks())
+    ctx.check(len(marks) == 1 and marks[0]["name"] == "use_base" and m(item(Par(2)), marks[0]["args"][0]) and unc, "H-ITEM", b, "flag-set:use_base", b.span,
+              "BuildHelper::use_base(b) must mark slot b as a used base, unconditionally (a base that is silently not recorded can be handed out twice)")
